@@ -1,7 +1,7 @@
 #!/bin/bash
 # usage: try_seeded.sh <property id> [<seed name>]   -- confirms a seeded change from /tmp/mut/<id>/_seeded and runs the check against it
 set -u
-ID=$1; NAME=${2:-$1}; WT=/tmp/mut/$ID; DEST=/verif/seeded/$NAME
+ID=$1; NAME=${2:-$1}; WT=/tmp/mut/$NAME; DEST=/verif/seeded/$NAME
 mkdir -p $DEST; cp $WT/_seeded/patch.diff $WT/_seeded/demo.py $WT/_seeded/meta.json $DEST/ 2>/dev/null
 cd $WT
 echo "== demo on modified tree (must fail)"; PYTHONPATH=$WT/src /venv/bin/python $DEST/demo.py > $DEST/demo_modified.out 2>&1; DM=$?; tail -2 $DEST/demo_modified.out
